@@ -392,11 +392,48 @@ func (o *oracleBuilder) shuffleEntries(seed [32]byte, rounds uint64, nMax int) {
 	}
 }
 
-const proposerBlocks = 4
-const syncBlocksMin = 6
+const minBlocks = 2
+const maxBlocks = 400
+
+// samplingBlocks adds hash(seed + uint_to_bytes(block)) for as many blocks as any run of the specification's
+// candidate loop can need: the loop accepts at the latest at a byte that the poorest active validator accepts
+// (byte * MAX <= minEff * 255), so blocks are added until `need` such bytes have been seen (+1 block of slack).
+// This only sizes the table; if it were too small TLC would fail on a missing pre-image (infrastructure error).
+func (o *oracleBuilder) samplingBlocks(seed [32]byte, p Preset, minEff uint64, need uint64) {
+	seen := uint64(0)
+	extra := 0
+	for b := uint64(0); b < maxBlocks; b++ {
+		d := o.sha(cat(seed[:], u64(b)))
+		for _, x := range d {
+			if uint64(x)*p.MAX_EFFECTIVE_BALANCE <= minEff*255 {
+				seen++
+			}
+		}
+		if seen >= need && b+1 >= minBlocks {
+			extra++
+			if extra > 1 {
+				return
+			}
+		}
+	}
+}
+
+func minActiveEff(vals [][]int, e uint64) uint64 {
+	m, any := uint64(0), false
+	for _, v := range vals {
+		if uint64(v[0]) <= e && e < uint64(v[1]) {
+			if !any || uint64(v[2]) < m {
+				m = uint64(v[2])
+			}
+			any = true
+		}
+	}
+	return m
+}
 
 // buildOracle: crypto/sha256 of every pre-image the specification hashes for this state.
-func buildOracle(p Preset, slot uint64, mixes [][32]byte, nVals int) []pair {
+func buildOracle(p Preset, slot uint64, mixes [][32]byte, vals [][]int) []pair {
+	nVals := len(vals)
 	o := &oracleBuilder{seen: map[string]bool{}}
 	cur := slot / p.SLOTS_PER_EPOCH
 	prev := cur
@@ -414,17 +451,12 @@ func buildOracle(p Preset, slot uint64, mixes [][32]byte, nVals int) []pair {
 	for s := cur * p.SLOTS_PER_EPOCH; s < (cur+1)*p.SLOTS_PER_EPOCH; s++ {
 		ss := o.sha(cat(ps[:], u64(s)))
 		o.shuffleEntries(ss, p.SHUFFLE_ROUND_COUNT, nVals)
-		for b := uint64(0); b < proposerBlocks; b++ {
-			o.sha(cat(ss[:], u64(b)))
-		}
+		o.samplingBlocks(ss, p, minActiveEff(vals, cur), 1)
 	}
-	nb := uint64(syncBlocksMin) + p.SYNC_COMMITTEE_SIZE/8
 	for _, e := range []uint64{cur, cur + 1} {
 		ys := seed(e, 7)
 		o.shuffleEntries(ys, p.SHUFFLE_ROUND_COUNT, nVals)
-		for b := uint64(0); b < nb; b++ {
-			o.sha(cat(ys[:], u64(b)))
-		}
+		o.samplingBlocks(ys, p, minActiveEff(vals, e), p.SYNC_COMMITTEE_SIZE)
 	}
 	return o.out
 }
@@ -629,7 +661,7 @@ func recordState(spec *common.Spec, p Preset, st common.BeaconState, running *co
 		return ev, err
 	}
 	ev.Chain, ev.Kind, ev.Boundary, ev.NewChain = chain, kind, boundary, newChain
-	ev.H = buildOracle(p, uint64(ev.Slot), mixesRaw, len(ev.Vals))
+	ev.H = buildOracle(p, uint64(ev.Slot), mixesRaw, ev.Vals)
 	var fresh *common.EpochsContext
 	ferr := guarded(func() error {
 		var err error
@@ -916,7 +948,7 @@ func replay(casesPath, resultPath string) error {
 	sc := bufio.NewScanner(f)
 	sc.Buffer(make([]byte, 1<<20), 1<<28)
 	realHash, realGet := hashing.Hash, hashing.GetHashFn
-	var mism []mismatch
+	mism := []mismatch{}
 	cases, misses, line := 0, 0, 0
 	for sc.Scan() {
 		line++
